@@ -8,6 +8,8 @@ verus! {
 
 global size_of usize == 8;
 
+//@INCLUDE prelude/std_extra.rs
+
 // ASSUMED std contract: an empty string (capacity is not observable)
 pub assume_specification[ String::with_capacity ](n: usize) -> (s: String)
     ensures s@ == Seq::<char>::empty();
